@@ -405,6 +405,10 @@ def run(ctx):
     else:
         r10.check(not gap, "cache-key-covers-encoded-fields", "the cache key covers %s, all the client-supplied fields the encoder writes" % sorted(encf),
                   "Parse.%s is written to the server from the cached message but is not part of the cache key (%s): a hostile Parse that differs only there is cached first and every other client preparing the same text is answered with the server's error for the hostile message" % (gap, sorted(hashf)))
+    r14 = ctx.rule("C11-R14", "the one place where bytes a client chose (its start-up parameters) become SQL that pgcat runs on its own behalf, Server::sync_parameters: every value sits in an E'..' constant with both the "
+                   "backslash and the quote escaped, so that no value can end its constant - how a plain '..' constant reads a backslash depends on standard_conforming_strings, which the same client chooses", floor=2)
+    from c12 import quoting_clauses
+    quoting_clauses(ctx, r14, F)
     inv = ctx.rule("C11-INV", "inventory of panic-capable operations on data read from the client in the protocol entry functions (a panic here only ends the sender's task)", armed=False)
     tot = 0
     for fn in ENTRY_FNS:
